@@ -48,6 +48,7 @@ type Node struct {
 	Idx        int
 	HostID     [16]byte
 	IP         net.IP
+	PeerIP     net.IP // node-to-node (peer / broadcast) address if it differs from the client-facing one
 	Port       int
 	DC, Rack   string
 	Tokens     []string
@@ -215,7 +216,10 @@ func (d Dialer) DialContext(ctx context.Context, network, addr string) (net.Conn
 	_, port, _ := net.SplitHostPort(addr)
 	p := n.Port
 	fmt.Sscan(port, &p)
-	drv, srv := memnet.Pipe(&net.TCPAddr{IP: net.IPv4(10, 9, 9, 9), Port: 30000 + k}, &net.TCPAddr{IP: n.IP, Port: p}, f)
+	c.mu.Lock()
+	nip := n.IP
+	c.mu.Unlock()
+	drv, srv := memnet.Pipe(&net.TCPAddr{IP: net.IPv4(10, 9, 9, 9), Port: 30000 + k}, &net.TCPAddr{IP: nip, Port: p}, f)
 	sc := &ServerConn{Node: n, C: srv, Driver: drv, outstanding: map[int]*Req{}, Index: k}
 	n.mu.Lock()
 	n.conns = append(n.conns, sc)
@@ -549,7 +553,11 @@ func (sc *ServerConn) WriteRaw(b []byte) error { return sc.write(b) }
 func text(s string) []byte { return []byte(s) }
 
 func (c *Cluster) rowFor(n *Node) *PeerRow {
-	return &PeerRow{Peer: n.IP, RPC: n.IP, HostID: n.HostID[:], DC: n.DC, Rack: n.Rack, Tokens: n.Tokens, Version: n.Release, SchemaVer: c.SchemaVer[:], NativePort: n.Port}
+	peer := n.IP
+	if n.PeerIP != nil {
+		peer = n.PeerIP
+	}
+	return &PeerRow{Peer: peer, RPC: n.IP, HostID: n.HostID[:], DC: n.DC, Rack: n.Rack, Tokens: n.Tokens, Version: n.Release, SchemaVer: c.SchemaVer[:], NativePort: n.Port}
 }
 
 func setText(l []string) []byte {
@@ -600,7 +608,9 @@ func (n *Node) systemQuery(sc *ServerConn, req *Req) bool {
 	}
 	switch {
 	case strings.HasPrefix(low, "select * from system.local"):
+		c.mu.Lock()
 		row := c.rowFor(n)
+		c.mu.Unlock()
 		if c.LocalView != nil {
 			if r := c.LocalView(n); r != nil {
 				row = r
@@ -697,4 +707,94 @@ func (n *Node) systemQuery(sc *ServerConn, req *Req) bool {
 		return true
 	}
 	return false
+}
+
+// ---- membership mutations (C16) ---------------------------------------------------------
+
+// RemoveNode takes n out of the cluster: it is no longer listed in system.peers, cannot be
+// dialled and its connections are closed.
+func (c *Cluster) RemoveNode(n *Node) {
+	c.mu.Lock()
+	for i, x := range c.Nodes {
+		if x == n {
+			c.Nodes = append(c.Nodes[:i:i], c.Nodes[i+1:]...)
+			break
+		}
+	}
+	c.mu.Unlock()
+	n.SetDown(true)
+}
+
+// SetAddr moves n to a new address (its connections are closed).
+func (c *Cluster) SetAddr(n *Node, ip net.IP) {
+	c.mu.Lock()
+	n.IP = ip
+	c.mu.Unlock()
+	for _, sc := range n.Conns() {
+		sc.Close()
+	}
+}
+
+// SetHostID gives n a new host id (a replaced node on the same address); connections are closed.
+func (c *Cluster) SetHostID(n *Node, id [16]byte) {
+	c.mu.Lock()
+	n.HostID = id
+	c.mu.Unlock()
+	for _, sc := range n.Conns() {
+		sc.Close()
+	}
+}
+
+// Snapshot returns the current node list.
+func (c *Cluster) Snapshot() []*Node {
+	c.mu.Lock()
+	defer c.mu.Unlock()
+	return append([]*Node{}, c.Nodes...)
+}
+
+// RowFor returns the peers/local row describing n.
+func (c *Cluster) RowFor(n *Node) PeerRow {
+	c.mu.Lock()
+	defer c.mu.Unlock()
+	return *c.rowFor(n)
+}
+
+// DataConnsOpen counts the open non-control connections to n.
+func (n *Node) DataConnsOpen() int {
+	k := 0
+	for _, sc := range n.OpenConns() {
+		sc.mu.Lock()
+		ctl := sc.IsControl
+		sc.mu.Unlock()
+		if !ctl {
+			k++
+		}
+	}
+	return k
+}
+
+// ControlConn returns the open connection that registered for events, if any.
+func (c *Cluster) ControlConn() *ServerConn {
+	for _, sc := range c.AllConns() {
+		sc.mu.Lock()
+		ctl := sc.IsControl
+		sc.mu.Unlock()
+		if ctl && !sc.Driver.Closed() && !sc.C.Closed() {
+			return sc
+		}
+	}
+	return nil
+}
+
+// QueryCount returns how many non-system QUERY/EXECUTE/BATCH requests n has received.
+func (n *Node) QueryCount(prefix string) int {
+	k := 0
+	for _, sc := range n.Conns() {
+		for _, rq := range sc.AllRequests() {
+			if rq.Header.Op == cqlref.OpQuery && strings.HasPrefix(rq.Statement, prefix) {
+				k++
+			}
+		}
+	}
+	return k
 }
